@@ -1,10 +1,84 @@
+import PdshVerif.Base.Hex
+import PdshVerif.Dshbak.Model
+import PdshVerif.Dshbak.Spec
 import Driver.Util
 
-/-! engine stub: filled in by the owner of this engine (see FRAMEWORK.md) -/
-namespace Driver.DshbakDrv
+/-! line protocol of the dshbak engine
 
-def main (_args : List String) : IO UInt32 := do
-  IO.eprintln "engine not implemented"
-  return 2
+`pdshmodel dshbak model`: one case per line `MODE REPAIRED HEXINPUT`
+  MODE n (report / -d: one block per tag) or c (-c: coalesced), REPAIRED = bit 0: D21 patch applied,
+  bit 1: F19-EMPTYSTEM patch applied (both probed on the real script by the check),
+  HEXINPUT the bytes of stdin.  Answer: blocks separated by `;` (`.` when there is none)
+  n:  HEX(tag)=HEX(line),HEX(line)...
+  c:  HEX(suffix group text),...=HEX(tag),...=HEX(line),...=HEX(denoted host),...
+`pdshmodel dshbak spec`: `MODE RECORDS | BLOCKS`
+  RECORDS = HEX(tag):HEX(body),... (the labelled lines the generator wrote, in input order)
+  BLOCKS  n: HEX(tag)=HEX(line),...;...      c: HEX(host),...=HEX(line),...;...
+          (c: the hosts are what the real pdsh expanded the real header to)
+  Answer `ok` or `bad <reason>`.
+-/
+namespace Driver.DshbakDrv
+open PdshVerif PdshVerif.Dshbak
+
+def hx (s : Str) : String := Hex.encodeChars s
+def hxs (l : List Str) : String := if l.isEmpty then "~" else ",".intercalate (l.map hx)
+
+def unhx (s : String) : Option Str := Hex.decodeToChars s
+def unhxs (s : String) : Option (List Str) :=
+  if s = "~" then some [] else (s.splitOn ",").mapM unhx
+
+def semis (l : List String) : String := if l.isEmpty then "." else ";".intercalate l
+
+def runModel (line : String) : String :=
+  match Driver.words line with
+  | [mode, rep, hxin] =>
+    match unhx hxin with
+    | none => "bad-op"
+    | some input =>
+      let flags := rep.toNat?.getD 0
+      let m := processLines (flags % 2 = 1) (readLines input)
+      if mode = "n" then
+        semis ((normalBlocks (keys m) m).map fun b => hx b.1 ++ "=" ++ hxs b.2)
+      else if mode = "c" then
+        semis ((coalesce (keys m) m).map fun b =>
+          let gs := if flags / 2 % 2 = 1 then compressGroupsFixed b.1 else compressGroups b.1
+          hxs (gs.map fun g => renderHeader [g]) ++ "=" ++ hxs b.1 ++ "=" ++ hxs b.2 ++ "=" ++ hxs (hostsOf gs))
+      else "bad-op"
+  | _ => "bad-op"
+
+def parseRecs (s : String) : Option (List (Str × Str)) :=
+  if s = "~" then some [] else
+  (s.splitOn ",").mapM fun r =>
+    match r.splitOn ":" with
+    | [a, b] => do let a ← unhx a; let b ← unhx b; pure (a, b)
+    | _ => none
+
+def parseBlocks (s : String) : Option (List (List Str × List Str)) :=
+  if s = "." then some [] else
+  (s.splitOn ";").mapM fun b =>
+    match b.splitOn "=" with
+    | [a, c] => do let a ← unhxs a; let c ← unhxs c; pure (a, c)
+    | _ => none
+
+def runSpec (line : String) : String :=
+  match Driver.words line with
+  | [mode, recs, "|", blocks] =>
+    match parseRecs recs, parseBlocks blocks with
+    | some recs, some blocks =>
+      if mode = "n" then
+        match blocks.mapM (fun b => match b.1 with | [t] => some (t, b.2) | _ => none) with
+        | some bs => Spec.explainNormal recs bs
+        | none => "bad-op"
+      else if mode = "c" then Spec.explainCoalesced recs blocks
+      else "bad-op"
+    | _, _ => "bad-op"
+  | _ => "bad-op"
+
+def main (args : List String) : IO UInt32 := do
+  let stdin ← IO.getStdin
+  match args with
+  | ["model"] => Driver.forLines stdin () (fun _ l => ((), runModel l)); return 0
+  | ["spec"] => Driver.forLines stdin () (fun _ l => ((), runSpec l)); return 0
+  | _ => IO.eprintln "usage: pdshmodel dshbak model|spec"; return 2
 
 end Driver.DshbakDrv
